@@ -104,7 +104,7 @@ def replay_scenarios(chk, scs):
 
 
 def sizes(tier):
-    return (260, 90, 400) if tier == "quick" else (9000, 3000, 20000)
+    return (600, 200, 600) if tier == "quick" else (12000, 4000, 20000)
 
 
 def run(chk, only=None):
